@@ -114,9 +114,10 @@ func body(c *nd.Ctx) nd.Result {
 	var env *vsess.Env
 	var setupErr error
 	var finalState xmpp.SessionState
-	var readAfter error
+	var readAfter, readAfterAgain error
 	var deadlineErr error
 	tagWrites := 0
+	handlerCalls := 0
 	handlerErr := errors.New("handler failed")
 	out := vs.Run(c, vs.Options{Horizon: 20000}, func() {
 		env, setupErr = vsess.New(ns, 0)
@@ -172,6 +173,7 @@ func body(c *nd.Ctx) nd.Result {
 			}
 		}
 		env.Serve(xmpp.HandlerFunc(func(t xmlstream.TokenReadEncoder, start *xml.StartElement) error {
+			handlerCalls++
 			switch handlerMode {
 			case 1:
 				st := xml.StartElement{Name: xml.Name{Local: "message"}, Attr: []xml.Attr{{Name: xml.Name{Local: "id"}, Value: "reply1"}}}
@@ -228,6 +230,15 @@ func body(c *nd.Ctx) nd.Result {
 		r := env.S.TokenReader()
 		_, readAfter = r.Token()
 		r.Close()
+		// and again: every later read fails the same way (and does not hang)
+		for i := 0; i < 2; i++ {
+			r2 := env.S.TokenReader()
+			_, err := r2.Token()
+			r2.Close()
+			if !errors.Is(err, xmpp.ErrInputStreamClosed) && readAfterAgain == nil {
+				readAfterAgain = fmt.Errorf("read %d after close: %v", i+2, err)
+			}
+		}
 	})
 	if setupErr != nil {
 		panic("c10: setup: " + setupErr.Error())
@@ -331,11 +342,18 @@ func body(c *nd.Ctx) nd.Result {
 			return fail("serve:handler-error-not-returned", "Serve returned %v", env.ServeErr)
 		}
 	}
+	// closing our side does not stop the peer's stanzas from being handled
+	if peer == "close-deadline-set-while-serving-then-stanza-and-peer-closes" && handlerCalls != 1 {
+		return fail("serve:stanza-after-local-close-not-handled", "the peer sent one stanza after our closing tag and before its own; the handler ran %d times", handlerCalls)
+	}
 	if finalState&xmpp.OutputStreamClosed == 0 || finalState&xmpp.InputStreamClosed == 0 {
 		return fail("state:not-both-closed", "State() = %v after Serve returned", finalState)
 	}
 	if !errors.Is(readAfter, xmpp.ErrInputStreamClosed) {
 		return fail("state:read-after-close", "reading a token after Serve returned gives %v", readAfter)
+	}
+	if readAfterAgain != nil {
+		return fail("state:read-after-close", "%v", readAfterAgain)
 	}
 	return res
 }
